@@ -1077,3 +1077,86 @@ Example cut_floor_demo : cut_floor 2 (seg_bytes [(120, 1); (233, 3)]) = [120]
   /\ cut_floor 3 (seg_bytes [(120, 1); (233, 3)]) = [120; 195; 169]
   /\ read_cut 2 (seg_bytes [(120, 1); (233, 3)]) = [120; 239; 191; 189].
 Proof. vm_compute. repeat split. Qed.
+
+(* well-formed UTF-8 by shape: characters = a lead byte followed by char_len - 1 continuation bytes *)
+Inductive WfU8 : list N -> Prop :=
+| WfU8_nil : WfU8 []
+| WfU8_char : forall b cs rest,
+    is_cont b = false -> nlen cs + 1 = char_len b -> forallb is_cont cs = true -> WfU8 rest ->
+    WfU8 (b :: cs ++ rest).
+
+Lemma cut_floor_conts n cs rest : forallb is_cont cs = true -> cut_floor n (cs ++ rest) = cs ++ cut_floor n rest.
+Proof.
+  induction cs as [|c cs IH]; intros F; cbn [app]; [reflexivity|].
+  cbn [forallb] in F. apply andb_true_iff in F. destruct F as [Fc F].
+  cbn [cut_floor]. rewrite Fc, IH by exact F. reflexivity.
+Qed.
+
+(* the cut of a well-formed text is a well-formed text of at most n bytes: never half a character *)
+Theorem cut_floor_wf l : WfU8 l -> forall n, WfU8 (cut_floor n l) /\ nlen (cut_floor n l) <= n.
+Proof.
+  induction 1 as [|b cs rest Hb Hl Hc Hr IH]; intros n; cbn [cut_floor].
+  - split; [constructor | unfold nlen; cbn [length]; lia].
+  - rewrite Hb. destruct (char_len b <=? n) eqn:E.
+    + apply N.leb_le in E. rewrite cut_floor_conts by exact Hc.
+      destruct (IH (n - char_len b)) as [W L]. split.
+      * constructor; assumption.
+      * unfold nlen in *. cbn [length]. rewrite app_length. lia.
+    + split; [constructor | unfold nlen; cbn [length]; lia].
+Qed.
+
+Ltac cmp_cases :=
+  repeat match goal with
+         | |- context [?a <? ?b] => destruct (N.ltb_spec a b)
+         | |- context [?a <=? ?b] => destruct (N.leb_spec a b)
+         end; cbn [andb]; try lia; auto.
+
+Lemma cont_ok x : x < 64 -> is_cont (128 + x) = true.
+Proof. intros H. unfold is_cont. cmp_cases. Qed.
+Lemma lead1_ok x : x < 128 -> is_cont x = false /\ char_len x = 1.
+Proof. intros H. unfold is_cont, char_len. split; cmp_cases. Qed.
+Lemma lead2_ok x : x < 32 -> is_cont (192 + x) = false /\ char_len (192 + x) = 2.
+Proof. intros H. unfold is_cont, char_len. split; cmp_cases. Qed.
+Lemma lead3_ok x : x < 16 -> is_cont (224 + x) = false /\ char_len (224 + x) = 3.
+Proof. intros H. unfold is_cont, char_len. split; cmp_cases. Qed.
+Lemma lead4_ok x : is_cont (240 + x) = false /\ char_len (240 + x) = 4.
+Proof. unfold is_cont, char_len. split; cmp_cases. Qed.
+
+Lemma WfU8_app a b : WfU8 a -> WfU8 b -> WfU8 (a ++ b).
+Proof.
+  induction 1 as [|c cs rest Hb Hl Hc Hr IH]; intros Wb; cbn [app]; [exact Wb|].
+  rewrite <- app_assoc. constructor; auto.
+Qed.
+
+Lemma WfU8_one b cs : is_cont b = false -> nlen cs + 1 = char_len b -> forallb is_cont cs = true -> WfU8 (b :: cs).
+Proof. intros. rewrite <- (app_nil_r cs). constructor; auto. constructor. Qed.
+
+(* the UTF-8 encoding of a code point is one well-formed character *)
+Lemma utf8_enc_wf cp : WfU8 (utf8_enc cp).
+Proof.
+  unfold utf8_enc.
+  destruct (N.ltb_spec cp 128) as [H1|H1].
+  { destruct (lead1_ok cp H1) as [A B]. apply WfU8_one; [exact A | rewrite B; reflexivity | reflexivity]. }
+  assert (M : forall y, y mod 64 < 64) by (intros y; apply N.mod_lt; lia).
+  destruct (N.ltb_spec cp 2048) as [H2|H2].
+  { assert (D : cp / 64 < 32) by (apply N.div_lt_upper_bound; lia).
+    destruct (lead2_ok _ D) as [A B]. apply WfU8_one; [exact A | rewrite B; reflexivity |].
+    cbn [forallb]. rewrite cont_ok by apply M. reflexivity. }
+  destruct (N.ltb_spec cp 65536) as [H3|H3].
+  { assert (D : cp / 4096 < 16) by (apply N.div_lt_upper_bound; lia).
+    destruct (lead3_ok _ D) as [A B]. apply WfU8_one; [exact A | rewrite B; reflexivity |].
+    cbn [forallb]. rewrite !cont_ok by apply M. reflexivity. }
+  destruct (lead4_ok (cp / 262144)) as [A B]. apply WfU8_one; [exact A | rewrite B; reflexivity |].
+  cbn [forallb]. rewrite !cont_ok by apply M. reflexivity.
+Qed.
+
+Lemma seg_bytes_wf sg : WfU8 (seg_bytes sg).
+Proof.
+  unfold seg_bytes. induction sg as [|[cp n] r IH]; cbn [flat_map]; [constructor|].
+  apply WfU8_app; [|exact IH]. cbn [fst snd].
+  induction (N.to_nat n) as [|m IHm]; cbn [rep_bytes]; [constructor | apply WfU8_app; [apply utf8_enc_wf | exact IHm]].
+Qed.
+
+(* whatever text the provider sends (given by code points), cutting it at ANY n gives a well-formed text of <= n bytes *)
+Theorem cut_of_text_wf sg n : WfU8 (cut_floor n (seg_bytes sg)) /\ nlen (cut_floor n (seg_bytes sg)) <= n.
+Proof. apply cut_floor_wf, seg_bytes_wf. Qed.
